@@ -82,8 +82,19 @@ impl ReqGen {
 
     /// bulk content: distinct ids, or repeated ids in ascending / descending stamp order
     pub fn bulk(&mut self, src: &mut Src) -> Vec<W> {
-        let n = src.below(5);
-        let mut ws: Vec<W> = (0..n).map(|_| self.w(src)).collect();
+        // mostly small bulks; one in eight is large (5-40 entries over up to 50 ids: the message's small-vector
+        // spills, storage sees long batches, a partial failure can stop anywhere)
+        let large = src.chance(1, 8);
+        let n = if large { 5 + src.below(36) } else { src.below(5) };
+        let mut ws: Vec<W> = (0..n)
+            .map(|_| {
+                let mut w = self.w(src);
+                if large {
+                    w.key = 1 + src.below64(50);
+                }
+                w
+            })
+            .collect();
         if src.chance(1, 2) {
             // what put_many / del_many produce: distinct ids sharing ONE timestamp
             let shared = self.stamp(src);
@@ -124,10 +135,12 @@ impl ReqGen {
 }
 
 pub fn gen_fault(src: &mut Src) -> Option<Fault> {
-    match src.weighted(&[8, 1, 1]) {
+    match src.weighted(&[8, 1, 1, 1]) {
         0 => None,
         1 => Some(Fault::FailBefore),
-        _ => Some(Fault::Partial(src.below(4))),
+        2 => Some(Fault::Partial(*src.pick(&[0usize, 1, 2, 3, 3, 5, 9, 20]))),
+        // the rows storage managed to write need not be a prefix of the request
+        _ => Some(Fault::Subset(src.word())),
     }
 }
 
@@ -221,7 +234,7 @@ impl Prop for C02 {
         "one real KeyspaceGroup (actors + clock) on an inspectable fault-injecting store; 1-25 requests \
          Set|MultiSet|Del|MultiDel|Purge over 1-2 keyspaces with stamps from 1-3 origins spread over up to 6 h in any \
          arrival order, both sources; bulk requests with distinct ids sharing one stamp (what put_many/del_many send), distinct ids with own stamps, \
-         or repeated ids in ascending / descending stamp order; storage faults: fail before writing, or write the first j items and report exactly those; \
+         or repeated ids in ascending / descending stamp order; storage faults: fail before writing, write the first j items and report exactly those, or write an arbitrary subset of the items and report exactly those; \
          oracle after EVERY request: {(id,stamp,tombstone)} held by storage == live+tombstone entries of the \
          deserialised Serialize reply, and live ids have bytes in storage; non-trivial = a request older than an \
          applied stamp of the same origin on the same source, or an injected failure, or an effective purge"
